@@ -160,6 +160,11 @@ func sxCav(c macaroon.Caveat) string {
 		return fmt.Sprintf("(flySrc %s %s %s)", hs(v.Organization), hs(v.App), hs(v.Instance))
 	case *macaroon.UnregisteredCaveat:
 		return fmt.Sprintf("(unreg %d %s)", uint64(v.Type), hx(v.RawMsgpack))
+	case *userCaveat:
+		if v.Attest {
+			return "(flyioUser 0)"
+		}
+		return fmt.Sprintf("(unreg %d xc0)", uint64(v.CaveatType()))
 	default:
 		return fmt.Sprintf("(gounknown %d)", uint64(c.CaveatType()))
 	}
